@@ -73,6 +73,27 @@ Proof.
   rewrite (prep_opt_obc d a a'), (prep_opt_obc d b b'), (prep_opt_obc d n n') by assumption. reflexivity.
 Qed.
 
+(* ---------------------------------------------------------------- n of poi_to_ind: grid_prep_opts(None, None, n, d, m) *)
+(* it is grid_prep_opt preceded by the length validation of a list n *)
+Lemma prep_n_eq n d reps : prep_n n d reps =
+  match n with
+  | GVec l => if Nat.eqb (length l) d then grid_prep_opt n (Some (Z.of_nat d)) reps else Err ValueError
+  | _ => grid_prep_opt n (Some (Z.of_nat d)) reps
+  end.
+Proof.
+  unfold prep_n, grid_prep_opts. destruct n as [|x|l]; cbn [opts_step rbind grid_prep_opt rmap snd].
+  - reflexivity.
+  - destruct (Z.of_nat d <=? 0)%Z; reflexivity.
+  - destruct (Nat.eqb_spec (length l) d) as [->|Hne].
+    + rewrite Z.eqb_refl. reflexivity.
+    + destruct (Z.eqb_spec (Z.of_nat d) (Z.of_nat (length l))) as [E|_]; [|reflexivity].
+      apply Nat2Z.inj in E. congruence.
+Qed.
+Lemma prep_n_obc d (n n' : gopt Z) reps : 0 < d -> obc d n n' -> prep_n n d reps = prep_n n' d reps.
+Proof.
+  intros Hd Hn. unfold prep_n. rewrite (grid_prep_opts_obc d GNone GNone GNone GNone n n'); auto; now left.
+Qed.
+
 Section Generic.
 Context {T : Type} (K : ops T).
 Variable fl : T -> Z.
@@ -111,7 +132,7 @@ Proof.
   intros HX Ha Hb Hn. unfold poi_to_ind1. rewrite <- (opt_broadcast_poi_scale1 X a a' b b' kd) by assumption.
   destruct (poi_scale1 K X a b kd) as [Xsc|e] eqn:E; [|reflexivity]. cbn [rbind].
   apply poi_scale1_length in E. rewrite E.
-  rewrite (prep_opt_obc (length X) n n'); auto. destruct X; [congruence|simpl; lia].
+  rewrite (prep_n_obc (length X) n n'); auto. destruct X; [congruence|simpl; lia].
 Qed.
 
 (* ---------------------------------------------------------------- reps: the [reps, d] arrays are repeated rows *)
@@ -145,6 +166,16 @@ Proof.
   destruct (grid_prep_opt b d' None) eqn:Eb; [|discriminate]. cbn [rbind].
   destruct (grid_prep_opt n d' None) eqn:En; [|discriminate]. cbn [rbind].
   intros H; injection H as <- <- <-. repeat split; eapply prep_opt_flat; eassumption.
+Qed.
+Lemma prep_n_reps n d m : prep_n n d (Some m) = rmap (prep m) (prep_n n d None).
+Proof.
+  rewrite !prep_n_eq. destruct n as [|x|l]; try apply prep_opt_reps.
+  destruct (Nat.eqb (length l) d); [apply prep_opt_reps|reflexivity].
+Qed.
+Lemma prep_n_flat n d p : prep_n n d None = Ok p -> flat1 p.
+Proof.
+  rewrite prep_n_eq. destruct n as [|x|l]; try apply prep_opt_flat.
+  destruct (Nat.eqb (length l) d); [apply prep_opt_flat|discriminate].
 Qed.
 Lemma arr2_prep {A} m (p : parr A) : flat1 p -> arr2 (prep m p) = rmap (fun v => repeat v m) (arr1 p).
 Proof. destruct p; simpl; intros H; [reflexivity|reflexivity|contradiction]. Qed.
@@ -263,16 +294,16 @@ Proof.
     { destruct X; [congruence|]. simpl. apply HS. }
     rewrite Hd.
     rewrite (map_ext_in _ (fun x =>
-       rbind (grid_prep_opt n (Some (Z.of_nat d)) None) (fun n' =>
+       rbind (prep_n n d None) (fun n' =>
          match kd with
          | KUni | KCheb => rbind (arr1 n') (fun nv => bcast_row K fl acosf pi kd (S x) nv)
          | _ => Err ValueError
          end))).
     2:{ intros x Hx. rewrite (Hrow x (Hr x Hx)). cbn [rbind]. now rewrite HS. }
-    rewrite prep_opt_reps.
-    destruct (grid_prep_opt n (Some (Z.of_nat d)) None) as [n1|e] eqn:En; cbn [rmap rbind].
+    rewrite prep_n_reps.
+    destruct (prep_n n d None) as [n1|e] eqn:En; cbn [rmap rbind].
     2:{ now rewrite sequence_map_err. }
-    pose proof (prep_opt_flat _ _ _ En) as Fn.
+    pose proof (prep_n_flat _ _ _ En) as Fn.
     destruct kd as [| |an bn|]; try (now rewrite sequence_map_err).
     all: rewrite arr2_prep by assumption.
     all: destruct (arr1 n1) as [nv|e]; cbn [rmap rbind]; [|now rewrite sequence_map_err].
@@ -386,13 +417,107 @@ Lemma poi_to_ind1_rejects_ab X a b n kd x :
   In x (olen a ++ olen b) -> x <> Z.of_nat (length X) ->
   poi_to_ind1 K fl acosf pi X a b n kd = Err ValueError.
 Proof. intros Hx Hne. unfold poi_to_ind1. now rewrite (poi_scale1_rejects X a b kd x). Qed.
-(* poi_to_ind prepares n with grid_prep_opt alone (no length validation): what then happens is numpy
-   broadcasting.  A list n whose length is neither d nor 1 is rejected when d <> 1 ... *)
-Lemma poi_to_ind1_rejects_n X a b nv kd Xsc : kd = KUni \/ kd = KCheb ->
-  poi_scale1 K X a b kd = Ok Xsc -> length nv <> length X -> length X <> 1%nat ->
-  poi_to_ind1 K fl acosf pi X a b (GVec nv) kd = Err (if Nat.eqb (length nv) 1 then IndexError else ValueError).
+(* since bc9fc68 n goes through grid_prep_opts(None, None, n, d, m): a list n of the wrong length is rejected with
+   ValueError for EVERY dimension d, as soon as the scaling of the point succeeded ... *)
+Lemma poi_to_ind1_rejects_n X a b n kd Xsc x :
+  poi_scale1 K X a b kd = Ok Xsc -> In x (olen n) -> x <> Z.of_nat (length X) ->
+  poi_to_ind1 K fl acosf pi X a b n kd = Err ValueError.
 Proof.
-  intros Hk E Hne H1. unfold poi_to_ind1. rewrite E. cbn [rbind grid_prep_opt].
+  intros E Hx Hne. unfold poi_to_ind1. rewrite E. cbn [rbind]. apply poi_scale1_length in E. rewrite E.
+  rewrite prep_n_eq. destruct n as [|y|l]; cbn [olen] in Hx; try contradiction.
+  destruct Hx as [<-|[]]. destruct (Nat.eqb_spec (length l) (length X)) as [Eq|_]; [|reflexivity].
+  exfalso. apply Hne. now rewrite Eq.
+Qed.
+(* ... and whatever the scaling does, the call never succeeds *)
+Lemma poi_to_ind1_rejects_n_never_ok X a b n kd x :
+  In x (olen n) -> x <> Z.of_nat (length X) -> exists e, poi_to_ind1 K fl acosf pi X a b n kd = Err e.
+Proof.
+  intros Hx Hne. destruct (poi_scale1 K X a b kd) as [Xsc|e] eqn:E.
+  - exists ValueError. eapply poi_to_ind1_rejects_n; eauto.
+  - exists e. unfold poi_to_ind1. now rewrite E.
+Qed.
+(* poi_scale1 fails with ValueError only, unless a bound is None (then TypeError) *)
+Lemma poi_scale1_err X a b kd e : a <> GNone -> b <> GNone -> poi_scale1 K X a b kd = Err e -> e = ValueError.
+Proof.
+  intros Ha Hb. unfold poi_scale1. rewrite grid_prep_opts_unfold.
+  destruct (chain3_some a b GNone (Z.of_nat (length X))) as [-> | ->]; cbn [rbind]; [|congruence].
+  assert (P : forall o : gopt T, o <> GNone ->
+            (exists v, grid_prep_opt o (Some (Z.of_nat (length X))) None = Ok (P1 v)) \/
+            grid_prep_opt o (Some (Z.of_nat (length X))) None = Err ValueError).
+  { intros o Ho. destruct o as [|x|l]; [congruence| |]; cbn [grid_prep_opt].
+    - destruct (Z.of_nat (length X) <=? 0)%Z; [now right|left; eexists; reflexivity].
+    - left; eexists; reflexivity. }
+  destruct (P a Ha) as [(av & ->) | ->]; cbn [rbind]; [|congruence].
+  destruct (P b Hb) as [(bv & ->) | ->]; cbn [rbind grid_prep_opt]; [|congruence].
+  destruct kd; cbn [arr1 rbind]; congruence.
+Qed.
+(* the rejection clause for poi_to_ind at full strength: any list-valued a / b / n of the wrong length, any d,
+   any kind => ValueError (a, b not None: a missing bound is a TypeError whatever n is) *)
+Lemma poi_to_ind1_rejects X a b n kd x : a <> GNone -> b <> GNone ->
+  In x (olen a ++ olen b ++ olen n) -> x <> Z.of_nat (length X) ->
+  poi_to_ind1 K fl acosf pi X a b n kd = Err ValueError.
+Proof.
+  intros Ha Hb Hx Hne. rewrite app_assoc in Hx. apply in_app_or in Hx as [Hx|Hx].
+  - eapply poi_to_ind1_rejects_ab; eauto.
+  - destruct (poi_scale1 K X a b kd) as [Xsc|e] eqn:E.
+    + eapply poi_to_ind1_rejects_n; eauto.
+    + rewrite (poi_scale1_err X a b kd e Ha Hb E) in E. unfold poi_to_ind1. now rewrite E.
+Qed.
+(* the same for batches [m, d] (m >= 1): the batch call is rejected exactly as each of its rows *)
+Lemma sequence_all_err {A B} (f : A -> result B) (l : list A) e : l <> [] -> (forall x, In x l -> f x = Err e) ->
+  sequence (map f l) = Err e.
+Proof.
+  intros Hne H. rewrite (map_ext_in f (fun _ => Err e)) by exact H. now apply sequence_map_err.
+Qed.
+Lemma poi_to_ind_rejects X a b n kd d x : rect d X -> a <> GNone -> b <> GNone ->
+  In x (olen a ++ olen b ++ olen n) -> x <> Z.of_nat d ->
+  poi_to_ind K fl acosf pi X a b n kd = Err ValueError.
+Proof.
+  intros HR Ha Hb Hx Hne. rewrite (batch_is_map_poi_to_ind K fl acosf pi X a b n kd d HR).
+  destruct HR as [Hn Hr]. rewrite Forall_forall in Hr. apply sequence_all_err; auto.
+  intros r Hin. apply (poi_to_ind1_rejects r a b n kd x); auto. now rewrite (Hr r Hin).
+Qed.
+Lemma ind_to_poi_rejects I a b n kd d x : rect d I ->
+  In x (olen a ++ olen b ++ olen n) -> x <> Z.of_nat d ->
+  ind_to_poi K cosf pi I a b n kd = Err ValueError.
+Proof.
+  intros HR Hx Hne. rewrite (batch_is_map_ind_to_poi K cosf pi I a b n kd d HR).
+  destruct HR as [Hn Hr]. rewrite Forall_forall in Hr. apply sequence_all_err; auto.
+  intros r Hin. apply (ind_to_poi1_rejects r a b n kd x); auto. now rewrite (Hr r Hin).
+Qed.
+Lemma poi_scale_rejects X a b kd d x : rect d X ->
+  In x (olen a ++ olen b) -> x <> Z.of_nat d -> poi_scale K X a b kd = Err ValueError.
+Proof.
+  intros HR Hx Hne. rewrite (batch_is_map_poi_scale K X a b kd d HR).
+  destruct HR as [Hn Hr]. rewrite Forall_forall in Hr. apply sequence_all_err; auto.
+  intros r Hin. apply (poi_scale1_rejects r a b kd x); auto. now rewrite (Hr r Hin).
+Qed.
+Lemma batch_rejects (X : list (list T)) (I : list (list Z)) a b n kd d x : x <> Z.of_nat d ->
+  (rect d I -> In x (olen a ++ olen b ++ olen n) -> ind_to_poi K cosf pi I a b n kd = Err ValueError) /\
+  (rect d X -> In x (olen a ++ olen b) -> poi_scale K X a b kd = Err ValueError) /\
+  (rect d X -> a <> GNone -> b <> GNone -> In x (olen a ++ olen b ++ olen n) ->
+   poi_to_ind K fl acosf pi X a b n kd = Err ValueError).
+Proof.
+  intros; repeat split; intros;
+    [eapply ind_to_poi_rejects | eapply poi_scale_rejects | eapply poi_to_ind_rejects]; eauto.
+Qed.
+(* a list n of the right length is what the pinned code did with it *)
+Lemma poi_to_ind1_pinned_same X a b n kd : (forall x, In x (olen n) -> x = Z.of_nat (length X)) ->
+  poi_to_ind1 K fl acosf pi X a b n kd = poi_to_ind1_pinned K fl acosf pi X a b n kd.
+Proof.
+  intros H. unfold poi_to_ind1, poi_to_ind1_pinned. destruct (poi_scale1 K X a b kd) as [Xsc|e] eqn:E; [|reflexivity].
+  cbn [rbind]. apply poi_scale1_length in E. rewrite E, prep_n_eq.
+  destruct n as [|y|l]; try reflexivity. specialize (H _ (or_introl eq_refl)). apply Nat2Z.inj in H.
+  rewrite H, Nat.eqb_refl. reflexivity.
+Qed.
+
+(* ---- the code as pinned (n prepared by grid_prep_opt alone, no length validation): what then happened was numpy
+   broadcasting.  A list n whose length is neither d nor 1 was rejected when d <> 1 ... *)
+Lemma poi_to_ind1_pinned_rejects_n X a b nv kd Xsc : kd = KUni \/ kd = KCheb ->
+  poi_scale1 K X a b kd = Ok Xsc -> length nv <> length X -> length X <> 1%nat ->
+  poi_to_ind1_pinned K fl acosf pi X a b (GVec nv) kd = Err (if Nat.eqb (length nv) 1 then IndexError else ValueError).
+Proof.
+  intros Hk E Hne H1. unfold poi_to_ind1_pinned. rewrite E. cbn [rbind grid_prep_opt].
   apply poi_scale1_length in E.
   assert (R : bcast_row K fl acosf pi kd Xsc nv = Err (if Nat.eqb (length nv) 1 then IndexError else ValueError)).
   { unfold bcast_row. rewrite E. destruct (Nat.eqb_spec (length nv) (length X)); [congruence|].
@@ -400,13 +525,12 @@ Proof.
     destruct (Nat.eqb_spec (length X) 1); [congruence|reflexivity]. }
   destruct Hk as [-> | ->]; cbn [arr1 rbind]; exact R.
 Qed.
-(* ... but for d = 1 a longer (or empty) n is accepted and the single coordinate is broadcast against it:
-   the one place where an inconsistent option length is NOT rejected by the code *)
-Lemma poi_to_ind1_accepts_n_d1 x a b nv kd Xsc : kd = KUni \/ kd = KCheb ->
+(* ... but for d = 1 a longer (or empty) n was accepted and the single coordinate broadcast against it: the finding *)
+Lemma poi_to_ind1_pinned_accepts_n_d1 x a b nv kd Xsc : kd = KUni \/ kd = KCheb ->
   poi_scale1 K [x] a b kd = Ok Xsc -> length nv <> 1%nat ->
-  exists r, poi_to_ind1 K fl acosf pi [x] a b (GVec nv) kd = Ok r /\ length r = length nv.
+  exists r, poi_to_ind1_pinned K fl acosf pi [x] a b (GVec nv) kd = Ok r /\ length r = length nv.
 Proof.
-  intros Hk E Hne. unfold poi_to_ind1. rewrite E. cbn [rbind grid_prep_opt].
+  intros Hk E Hne. unfold poi_to_ind1_pinned. rewrite E. cbn [rbind grid_prep_opt].
   apply poi_scale1_length in E. cbn [length] in E.
   assert (R : exists r, bcast_row K fl acosf pi kd Xsc nv = Ok r /\ length r = length nv).
   { unfold bcast_row. rewrite E. destruct (Nat.eqb_spec (length nv) 1); [congruence|].
@@ -414,3 +538,16 @@ Proof.
   destruct Hk as [-> | ->]; cbn [arr1 rbind]; exact R.
 Qed.
 End Rejects.
+
+(* ---------------------------------------------------------------- the finding on the pinned code, machine-checked *)
+From Coq Require Import QArith Qcanon.
+(* poi_to_ind([0.1], 0., 1., [4, 5, 6]): d = 1, n of length 3.  The pinned code returned [0, 0, 0]; the code rejects it *)
+Lemma poi_to_ind1_pinned_refuted :
+  exists (X : list Qc) (a b : gopt Qc) (nv r : list Z),
+    length nv <> length X /\
+    poi_to_ind1_pinned OQc Qc_floor (fun x => x) (Q2Qc 0) X a b (GVec nv) KUni = Ok r /\
+    poi_to_ind1 OQc Qc_floor (fun x => x) (Q2Qc 0) X a b (GVec nv) KUni = Err ValueError.
+Proof.
+  exists [Q2Qc (1 # 10)], (GSc (Q2Qc 0)), (GSc (Q2Qc 1)), [4; 5; 6]%Z, [0; 0; 0]%Z.
+  split; [cbn; lia|]. split; vm_compute; reflexivity.
+Qed.
